@@ -1,9 +1,10 @@
 (* C17 -- Input parsing and binary result files preserve the data they carry.
    Property theorems only: each is closed by [exact] of a lemma from Proofs/, followed by Print Assumptions.
-   Model/FileIO.v is hand-written and tied to MTfit/utilities/file_io.py by the correspondence runs. *)
+   Model/FileIO.v and Model/Hyp.v are hand-written and tied to MTfit/utilities/file_io.py by the correspondence runs. *)
 From Coq Require Import ZArith List.
-From MTV.Model Require Import FileIO.
-From MTV.Proofs Require Import C17_fileio.
+From Coq Require Import Bool.
+From MTV.Model Require Import FileIO Hyp.
+From MTV.Proofs Require Import C17_fileio C17_hyp.
 Import ListNotations.
 Open Scope Z_scope.
 
@@ -38,3 +39,39 @@ Example C17_nonvacuous :
   complete_header [CErr; COther 9; CMeas; CName; CToa; CAz] /\
   well_shaped (mkRec 100 false 0 0 [[1; 2; 3; 4; 5; 6; 7; 8]]).
 Proof. split; [unfold complete_header; cbn; tauto|]. intros s [<-|[]]. reflexivity. Qed.
+
+(* NonLinLoc hypocentre files.  One event: whatever stands before and after its PHASE ... END_PHASE section (also lines
+   of 24 and more tokens), the picks come back per phase type with their stations, polarities, errors (3 x time error)
+   and angles, row for row in file order, and only those with a non-zero first motion.  A phase line is read when it
+   has at least 24 tokens; the azimuth and dip are tokens 23 and 24, so well-formed lines (27 tokens in the NonLinLoc
+   format) have at least 25 -- a line of exactly 24 tokens makes the real parser raise IndexError and is excluded. *)
+Theorem C17_hyp_event_picks : forall pre ps post k,
+  Forall not_phase pre -> Forall not_phase post -> Forall (fun np => (25 <= fst np)%nat) ps ->
+  hlookup k (parse_hyp_event (render_hyp_event pre ps post)) = map obs_of (filter (wanted k) (map snd ps)).
+Proof. exact hyp_event_picks. Qed.
+Print Assumptions C17_hyp_event_picks.
+
+(* for every sequence of lines at all, a phase type is listed at most once in the parsed event *)
+Theorem C17_hyp_event_keys_distinct : forall ls, NoDup (hkeys (parse_hyp_event ls)).
+Proof. exact hyp_event_keys_distinct. Qed.
+Print Assumptions C17_hyp_event_keys_distinct.
+
+(* a file: splitting at END_NLLOC recovers the events for any number of events, the last of which may lack its
+   END_NLLOC line, and each is then parsed on its own *)
+Theorem C17_hyp_split_recovers_events : forall events tail, Forall no_endloc events -> no_endloc tail ->
+  split_events (concat (map (fun e => e ++ [HEndLoc]) events) ++ tail) [] =
+  map (fun e => e ++ [HEndLoc]) events ++ (match tail with [] => [] | _ => [tail] end).
+Proof. exact hyp_split_recovers_events. Qed.
+Print Assumptions C17_hyp_split_recovers_events.
+
+Theorem C17_hyp_file : forall events k, Forall no_endloc events ->
+  map (hlookup k) (parse_hyp (concat (map (fun e => e ++ [HEndLoc]) events))) =
+  map (fun e => hlookup k (parse_hyp_event (e ++ [HEndLoc]))) events.
+Proof. exact hyp_parse_file. Qed.
+Print Assumptions C17_hyp_file.
+
+Example C17_hyp_nonvacuous :
+  parse_hyp [HLine 27 (mkPick 7 0 0 2 100 200); HPhase; HLine 27 (mkPick 1 0 0 2 100 200); HLine 27 (mkPick 2 1 2 3 110 210);
+             HLine 27 (mkPick 3 0 1 4 120 220); HLine 27 (mkPick 4 0 5 5 130 230); HEndPhase; HEndLoc; HPhase; HLine 27 (mkPick 5 1 3 1 0 0)] =
+  [[(0, [mkObs 1 1 6 100 200; mkObs 4 (-1) 15 130 230]); (1, [mkObs 2 (-1) 9 110 210])]; [(1, [mkObs 5 1 3 0 0])]].
+Proof. vm_compute. reflexivity. Qed.
